@@ -139,6 +139,23 @@ func evalCLI(c CLICase) (problems []string) {
 	const rawRevs = "SELECT version, description, type, applied, total, error, error_stmt, hash, partial_hashes FROM atlas_schema_revisions ORDER BY version"
 	before, _ := w.Query("db.sqlite", "SELECT sid FROM journal ORDER BY rowid")
 	revsBefore, _ := w.Query("db.sqlite", rawRevs)
+	// the preview decides like the real run: it refuses a changed applied part and otherwise lists
+	// the unapplied tail only.
+	dry := w.Run(nil, "migrate", "apply", "--dir", dirURL, "--url", dbURL, "--tx-mode", "none", "--lock-timeout", "1ms", "--dry-run")
+	switch dout := dry.Stdout + dry.Stderr; {
+	case strings.Contains(dry.Stderr, "panic:"):
+		bad("`migrate apply --dry-run` panicked: %s", dry)
+	case prefixChanged && !c.Set:
+		if dry.Exit == 0 || !strings.Contains(dout, "history changed") {
+			bad("an already applied statement was changed, yet `migrate apply --dry-run` did not report a changed history: %s", dry)
+		}
+	case !prefixChanged && c.Edit != "none" && !c.Set:
+		if dry.Exit != 0 {
+			bad("only the unapplied tail changed, yet `migrate apply --dry-run` fails: %s", dry)
+		} else if strings.Contains(dry.Stdout, "CREATE TABLE journal") {
+			bad("`migrate apply --dry-run` lists a statement that is already applied: %s", dry)
+		}
+	}
 	r2 := apply()
 	after, _ := w.Query("db.sqlite", "SELECT sid FROM journal ORDER BY rowid")
 	revsAfter, _ := w.Query("db.sqlite", rawRevs)
